@@ -7,6 +7,14 @@ import (
 // stdlibModel gives built-in semantics to a few pure library functions.
 func (e *fnEnc) stdlibModel(c *blockCtx, in ssa.Instruction, name string, args []Term, cc *ssa.CallCommon) ([]Term, bool) {
 	switch name {
+	case "cmp.Compare":
+		a, b := args[0], args[1]
+		switch a.Sort {
+		case SInt, SReal:
+			return []Term{ite(lt(a, b), intLit(-1), ite(lt(b, a), intLit(1), intLit(0)))}, true
+		case SStr, SAStr:
+			return []Term{e.strCompare(a, b)}, true
+		}
 	case "strings.Compare":
 		return []Term{e.strCompare(args[0], args[1])}, true
 	case "bytes.Compare":
